@@ -144,6 +144,8 @@ pub struct Flags {
 #[derive(Clone)]
 pub enum Init {
     Empty,
+    /// an empty store that streams its nodes to a listener which has gone away (every send fails and is only logged)
+    GoneListener,
     /// the store produced by building an ADF (native or bridged) from text
     Adf(String, bool),
 }
@@ -152,12 +154,15 @@ impl Init {
     pub fn json(&self) -> Value {
         match self {
             Init::Empty => json!("empty"),
+            Init::GoneListener => json!("empty, with a listener that has gone away"),
             Init::Adf(t, bridged) => json!({"adf": t, "bridged": bridged}),
         }
     }
     pub fn from_json(v: &Value) -> Init {
         if let Some(t) = v.get("adf").and_then(|x| x.as_str()) {
             Init::Adf(t.to_string(), v["bridged"].as_bool().unwrap_or(false))
+        } else if v.as_str().map(|s| s.contains("listener")).unwrap_or(false) {
+            Init::GoneListener
         } else {
             Init::Empty
         }
@@ -165,6 +170,16 @@ impl Init {
     pub fn build(&self) -> Bdd {
         match self {
             Init::Empty => Bdd::new(),
+            Init::GoneListener => {
+                #[cfg(feature = "frontend")]
+                {
+                    let (s, r) = crossbeam_channel::unbounded();
+                    drop(r);
+                    Bdd::with_sender(s)
+                }
+                #[cfg(not(feature = "frontend"))]
+                Bdd::new()
+            }
             Init::Adf(text, bridged) => {
                 let parser = adf_bdd::parser::AdfParser::default();
                 parser.parse()(text).expect("initial ADF text must parse");
@@ -199,6 +214,24 @@ fn key_of(bdd: &Bdd, with_memo: bool) -> Vec<u8> {
     k.push(254);
     for (nd, t) in &d.cache {
         k.extend_from_slice(&[nd.var().value() as u8, nd.lo().value() as u8, nd.hi().value() as u8, t.value() as u8]);
+    }
+    // ... and so do the per-node bookkeeping tables (variable lists, cached counts): a re-imported object has the same
+    // node table as the exported one but rebuilt bookkeeping, and what is built on it afterwards depends on that
+    k.push(253);
+    if let Some(vd) = &d.var_deps {
+        for l in vd {
+            let mut l: Vec<u8> = l.iter().map(|v| v.value() as u8).collect();
+            l.sort();
+            k.push(l.len() as u8);
+            k.extend_from_slice(&l);
+        }
+    }
+    k.push(252);
+    for (t, (mc, pc, depth)) in &d.count_cache {
+        k.push(t.value() as u8);
+        for x in [mc.cmodels, mc.models, pc.cmodels, pc.models, *depth] {
+            k.extend_from_slice(&(x as u32).to_le_bytes());
+        }
     }
     if with_memo {
         k.push(255);
